@@ -46,6 +46,7 @@ func init() {
 			{ID: "C06-R23", Title: "evaluations that fail ask the context too", Floor: 1, Run: evaluationsThatFailAskTheContextToo},
 			{ID: "C06-R24", Title: "iterators that are not bounded by data poll the context", Floor: 1, Run: iteratorsThatAreNotBoundedByDataPollTheContext},
 			{ID: "C06-R25", Title: "what ends a blocked operation waits for no lock that the operation holds", Floor: 1, Run: whatEndsABlockedOperationWaitsForNoLockItHolds},
+			{ID: "C06-R26", Title: "callback loops are bounded by what was there", Floor: 1, Run: callbackLoopsAreBoundedByWhatWasThere},
 		},
 	})
 }
